@@ -33,7 +33,14 @@ async def parse_expression_including_unresolved_subexpressions(
     """
     try:
         expression_tree = parse_ahb_expression_to_single_requirement_indicator_expressions(expression)
-        expression_tree = AhbExpressionResolverTransformer().transform(expression_tree)
+        try:
+            expression_tree = AhbExpressionResolverTransformer().transform(expression_tree)
+        except VisitError as visit_err:
+            # lark wraps exceptions raised inside transformer callbacks; a malformed condition expression inside a
+            # well-formed ahb expression has to surface as the SyntaxError it is
+            if isinstance(visit_err.orig_exc, SyntaxError):
+                raise visit_err.orig_exc
+            raise
     except SyntaxError as ahb_syntax_error:
         try:
             expression_tree = parse_condition_expression_to_tree(expression)
